@@ -102,6 +102,7 @@ class IndexInterp:
         self.symbolic = set(symbolic)       # names of arrays whose contents are symbolic
         self.on_call = on_call              # callback(node, interp) -> value or NotImplemented
         self.on_compare = None              # callback(left, op name, right, node) -> value or NotImplemented (comparisons that build objects)
+        self.symbolic_truth = None          # truth value given to a symbolic test (None: such a test is outside the fragment)
         self.steps = 0
         self.matrices = []
         self.events = []                    # statement-level calls (ast.Expr of a Call) with evaluated arguments
@@ -334,6 +335,8 @@ class IndexInterp:
         if _is_rat(v):
             return not v.is_zero()
         if isinstance(v, Matrix) or is_token(v):
+            if self.symbolic_truth is not None:
+                return self.symbolic_truth          # tests on symbolic numbers that only steer diagnostics: the caller says which way to go
             raise AnalysisError("truth value of the symbolic `%r`" % (v,))
         return bool(v)
 
@@ -403,6 +406,11 @@ class IndexInterp:
         if plain and nm in ("any", "all") and len(args) == 1 and isinstance(args[0], list):
             vals = [self.truth(x) for x in args[0]]
             return any(vals) if nm == "any" else all(vals)
+        if nm == "fromkeys" and isinstance(e.func, ast.Attribute) and dotted(e.func.value) == "dict" and 1 <= len(args) <= 2:
+            try:
+                return dict.fromkeys(self._iterate(args[0], e), args[1] if len(args) == 2 else None)
+            except TypeError:
+                raise AnalysisError("unhashable key in `%s`" % src(e)[:60])
         if plain and nm == "dict" and not args and isinstance(e.func, ast.Name):
             return dict(kw)
         if plain and nm == "dict" and len(args) == 1 and isinstance(args[0], dict) and isinstance(e.func, ast.Name):
